@@ -3,6 +3,7 @@
 //!   vcheck <Cxx> [quick|thorough]
 //!   vcheck --replay <file>
 
+mod c02;
 mod c03;
 mod c04;
 mod c05;
@@ -17,6 +18,8 @@ mod c16;
 mod c17;
 mod crdt;
 mod gen;
+mod stores;
+mod world;
 
 use vkit::{json, Tier};
 
@@ -45,6 +48,7 @@ fn main() {
         let case = doc.get("case").cloned().unwrap_or(json::J::Null);
         println!("replaying {} key={}", prop, doc.get("key").and_then(|v| v.as_str()).unwrap_or("?"));
         let code = match prop {
+            "C02" => c02::replay(&case),
             "C03" => c03::replay(&case),
             "C04" => c04::replay(&case),
             "C05" => c05::replay(&case),
@@ -74,6 +78,7 @@ fn main() {
         _ => Tier::Quick,
     };
     let code = match args[0].as_str() {
+        "C02" => c02::run(tier),
         "C03" => c03::run(tier),
         "C04" => c04::run(tier),
         "C05" => c05::run(tier),
